@@ -1,6 +1,7 @@
 """C10 — crowsetta conversions preserve times, frequencies, labels and order."""
 from __future__ import annotations
 
+import pathlib
 import uuid as uuidlib
 from fractions import Fraction
 
@@ -164,6 +165,17 @@ class C10(Prop):
         out += [self._l2t(rng) for _ in range(400 * n)]
         out += [self._lft(rng) for _ in range(250 * n)]
         out += [self._seg_import(rng) for _ in range(150 * n)]
+        # the same import through annotation_to_clip_annotation, which reads the recording from the annotated audio file
+        # (time expansion given as recording_kwargs) — sometimes after an earlier import of the same file with another factor
+        for _ in range(40 * n):
+            c = self._seg_import(rng)
+            if c["rec"]["sr"] / c["rec"]["te"] not in (8192, 16384, 4096):
+                continue
+            c["via"] = "annotation"
+            c["sr_file"] = int(c["rec"]["sr"] / c["rec"]["te"])
+            if rng.random() < 0.6:
+                c["te_before"] = rng.choice([t for t in (Fraction(1), Fraction(2), Fraction(10), Fraction(1, 2)) if t != c["rec"]["te"]])
+            out.append(c)
         out += [self._bbox_import(rng) for _ in range(120 * n)]
         out += [self._export(rng, "seg_export") for _ in range(130 * n)]
         out += [self._export(rng, "bbox_export") for _ in range(130 * n)]
@@ -172,6 +184,37 @@ class C10(Prop):
         return out
 
     # ------------------------------------------------------------------ implementation
+    def _via_annotation(self, c, seg):
+        import wave
+
+        import crowsetta
+        from soundevent.io.crowsetta import annotation as AN
+
+        d = pathlib.Path(__file__).resolve().parents[2] / "build" / "c10_audio"
+        d.mkdir(parents=True, exist_ok=True)
+        wav = d / f"f{c['sr_file']}.wav"
+        if not wav.exists():
+            with wave.open(str(wav), "wb") as w:
+                w.setnchannels(1)
+                w.setsampwidth(2)
+                w.setframerate(c["sr_file"])
+                w.writeframes(b"\0\0" * c["sr_file"])
+        mk = lambda: crowsetta.Annotation(annot_path=str(d / "a.csv"), notated_path=str(wav), seq=crowsetta.Sequence.from_segments([seg]))
+        if c.get("te_before") is not None:
+            guarded(AN.annotation_to_clip_annotation, mk(), recording_kwargs={"time_expansion": float(c["te_before"])}, adjust_time_expansion=c["adjust"])
+        kw = {} if c["rec"]["te"] == 1 and c.get("te_before") is None and c["ons"] % 2 else {"recording_kwargs": {"time_expansion": float(c["rec"]["te"])}}
+        r = guarded(AN.annotation_to_clip_annotation, mk(), adjust_time_expansion=c["adjust"], **kw)
+        if r[0] != "ok":
+            return {"res": ["err", r[1]], "msg": r[2]}
+        ca = r[1]
+        if len(ca.sound_events) != 1:
+            return {"res": ["err", "EOther"], "msg": f"{len(ca.sound_events)} sound events for one segment"}
+        a = ca.sound_events[0]
+        rec = a.sound_event.recording
+        meta_ok = rec.time_expansion == float(c["rec"]["te"]) and rec.samplerate == int(c["rec"]["sr"])
+        return {"res": ["ok", [Fraction(x) for x in a.sound_event.geometry.coordinates]], "gtype": a.sound_event.geometry.type,
+                "tags": self._obs_tags(a.tags), "same_rec": meta_ok}
+
     def _recording(self, rec):
         from soundevent import data
 
@@ -231,6 +274,8 @@ class C10(Prop):
             if c["mode"] in ("samples", "both"):
                 kw.update(onset_sample=c["ons"], offset_sample=c["offs"])
             seg = crowsetta.Segment.from_keyword(**kw)
+            if c.get("via") == "annotation":
+                return self._via_annotation(c, seg)
             r = guarded(S.segment_to_annotation, seg, rec, adjust_time_expansion=c["adjust"])
             if r[0] != "ok":
                 return {"res": ["err", r[1]], "msg": r[2]}
